@@ -10,17 +10,20 @@ HOOK_COMMITS = subprocess.run(
 TRUST = ("Trusted base: the simulator (vsim: scheduler, SimNet, libc clock/getrandom interposition), tokio's paused clock, "
          "the oracle code of the property; pre-emption granularity is one task poll; a clean batch is evidence, not proof.")
 
+WS_FLAVOUR = " One run in five uses the WebSocket transport (hook H6) for every connection of the run, so the same oracle judges litep2p's second connection implementation."
+
 CHECKS = {
     "C13": dict(
         engine="nodesim",
         technique="deterministic simulation: seeded schedules + fault injection over 2-4 real litep2p nodes on an in-memory network; request ledger oracle",
-        text="Seeded search over schedules, fault plans and request workloads with complete litep2p nodes (real TransportManager, TCP transport, Noise, yamux, request-response protocol) on a simulated network and clock. Oracle: ledger keyed by request id (at most one terminal event, exactly one by the horizon unless cancelled, response bytes equal what the responder supplied for that request, each request delivered to the responder at most once and unaltered, inbound bound respected, no unknown ids, no panic). Exploration is the right level: the property quantifies over interleavings and fault timings of a multi-task system which cannot be enumerated. Fault kinds: connection reset / half-close at an instant or at a byte offset, single-bit corruption in flight, partition (stalled delivery) and heal, refused / black-holed / slow connects, node kill (reset or silent vanish), crash + restart with the same identity and no memory, process stall (no task of a node is polled for 50 ms-40 s); a second pass runs the same cases against litep2p compiled with debug assertions (its debug_assert!-guarded states become panics = violations). In a third of the runs one extra peer registers the protocol name as a raw user protocol and misbehaves on the wire after a request arrived (silent, close, oversize / truncated / doubled / zero-length / never-terminated-varint response); its responses are not compared, only bounded by the configured maximum.",
+        text="Seeded search over schedules, fault plans and request workloads with complete litep2p nodes (real TransportManager, TCP transport, Noise, yamux, request-response protocol) on a simulated network and clock. Oracle: ledger keyed by request id (at most one terminal event, exactly one by the horizon unless cancelled, response bytes equal what the responder supplied for that request, each request delivered to the responder at most once and unaltered, inbound bound respected, no unknown ids, no panic). Exploration is the right level: the property quantifies over interleavings and fault timings of a multi-task system which cannot be enumerated. Fault kinds: connection reset / half-close at an instant or at a byte offset, single-bit corruption in flight, partition (stalled delivery) and heal, refused / black-holed / slow connects, node kill (reset or silent vanish), crash + restart with the same identity and no memory, process stall (no task of a node is polled for 50 ms-40 s); a second pass runs the same cases against litep2p compiled with debug assertions (its debug_assert!-guarded states become panics = violations). In a third of the runs one extra peer registers the protocol name as a raw user protocol and misbehaves on the wire after a request arrived (silent, close, oversize / truncated / doubled / zero-length / never-terminated-varint response); its responses are not compared, only bounded by the configured maximum." + WS_FLAVOUR,
         ref="DESIGN.md §5 C13",
     ),
 }
 
 
-CONN_TEXT = ("Seeded search over schedules, fault plans and application/protocol workloads with 2-4 complete litep2p nodes (real TransportManager, peer state machine, TCP transport, Noise, yamux, ProtocolSet, TransportService) carrying two probe user protocols each, on a simulated network and clock; every observable event goes into one totally ordered history that the oracle examines at the horizon, after a fault-free final phase which re-dials every disconnected pair.  Fault kinds: connection reset / half-close at an instant or at a byte offset, single-bit corruption in flight, partition (stalled delivery) and heal, refused / black-holed / slow connects, node kill (reset or silent vanish), crash + restart with the same identity and no memory, process stall (no task of a node is polled for 50 ms-40 s); a second pass runs the same cases against litep2p compiled with debug assertions (its debug_assert!-guarded states become panics = violations).")
+CONN_TEXT = ("Seeded search over schedules, fault plans and application/protocol workloads with 2-4 complete litep2p nodes (real TransportManager, peer state machine, TCP transport, Noise, yamux, ProtocolSet, TransportService) carrying two probe user protocols each, on a simulated network and clock; every observable event goes into one totally ordered history that the oracle examines at the horizon, after a fault-free final phase which re-dials every disconnected pair.  Fault kinds: connection reset / half-close at an instant or at a byte offset, single-bit corruption in flight, partition (stalled delivery) and heal, refused / black-holed / slow connects, node kill (reset or silent vanish), crash + restart with the same identity and no memory, process stall (no task of a node is polled for 50 ms-40 s); a second pass runs the same cases against litep2p compiled with debug assertions (its debug_assert!-guarded states become panics = violations). In a third of the runs some nodes also run litep2p's WebSocket transport on the simulated network (hook H6): peers are then known by a TCP and a WebSocket address, a dial by peer id opens on both transports at once, address dials use either, and nodes without the transport are offered /ws addresses to refuse. ")
+
 CHECKS.update({
     "C05": dict(engine="nodesim", technique="deterministic simulation: seeded schedules + fault injection over whole litep2p nodes; dial-outcome ledger oracle + final re-dial phase",
         text=CONN_TEXT + "C05 oracle: every accepted dial (by peer id, by well-formed or adversarial address) is followed by a connection with that peer or a failure naming a dialed address, never silence; dial outcomes never outnumber accepted dial calls (no duplicate/both); failures only name addresses that were dialed; malformed addresses are refused or fail, never panic or wedge; in the final phase every disconnected pair can be dialed again and the dial is attempted.", ref="DESIGN.md §5 C05"),
@@ -35,24 +38,24 @@ CHECKS.update({
 NOTIF_TEXT = ("Seeded search over schedules, fault plans and user workloads with 2-3 complete litep2p nodes running a notification protocol (real NotificationProtocol, HandshakeService, per-stream Connection tasks, NotificationHandle/Sink, TransportService, TCP transport, Noise, yamux) on a simulated network and clock; every user command and every user-visible event goes into one totally ordered history examined at the horizon; a fault-free final phase resets the users and opens a canary stream between every pair.  Fault kinds: connection reset / half-close at an instant or at a byte offset, single-bit corruption in flight, partition (stalled delivery) and heal, refused / black-holed / slow connects, node kill (reset or silent vanish), crash + restart with the same identity and no memory, process stall (no task of a node is polled for 50 ms-40 s); a second pass runs the same cases against litep2p compiled with debug assertions (its debug_assert!-guarded states become panics = violations).")
 CHECKS.update({
     "C11": dict(engine="nodesim", technique="deterministic simulation: seeded schedules + fault injection over whole litep2p nodes; per-peer event-grammar and response oracle, canary phase",
-        text=NOTIF_TEXT + "C11 oracle per (node, peer): opened/closed strictly alternate starting with opened; notifications only while open; no open-failure while open; an inbound stream opens only after the user accepted a validation, an outbound one only after a request or acceptance; no unsolicited open-failure; an open request issued while nothing is open, pending, under validation or being negotiated by the remote gets an answer; an open stream is reported closed once every connection to the peer ended; after the reset every pair can still open a stream (the protocol neither panicked, poisoned a peer nor stopped serving).", ref="DESIGN.md §5 C11"),
+        text=NOTIF_TEXT + "C11 oracle per (node, peer): opened/closed strictly alternate starting with opened; notifications only while open; no open-failure while open; an inbound stream opens only after the user accepted a validation, an outbound one only after a request or acceptance; no unsolicited open-failure; an open request issued while nothing is open, pending, under validation or being negotiated by the remote gets an answer; an open stream is reported closed once every connection to the peer ended; after the reset every pair can still open a stream (the protocol neither panicked, poisoned a peer nor stopped serving)." + WS_FLAVOUR, ref="DESIGN.md §5 C11"),
     "C12": dict(engine="nodesim", technique="deterministic simulation: seeded schedules + fault injection over whole litep2p nodes; per-(sender, period, mode) sequence oracle",
-        text=NOTIF_TEXT + "C12 oracle: payloads carry (sender, sender's open period, mode, sequence number, deterministic padding); per (sender, mode) the receiver must see, for each period, the gap-free in-order prefix 0,1,2.. exactly once, periods in order; every delivered notification is byte-identical to one that was sent and not larger than the maximum; bursts exceed the sync/async channel sizes, readers stall, streams close and reopen mid-burst; an asynchronous send that stays stuck for 40 s while the stream is open and the receiver reads is a violation.", ref="DESIGN.md §5 C12"),
+        text=NOTIF_TEXT + "C12 oracle: payloads carry (sender, sender's open period, mode, sequence number, deterministic padding); per (sender, mode) the receiver must see, for each period, the gap-free in-order prefix 0,1,2.. exactly once, periods in order; every delivered notification is byte-identical to one that was sent and not larger than the maximum; bursts exceed the sync/async channel sizes, readers stall, streams close and reopen mid-burst; an asynchronous send that stays stuck for 40 s while the stream is open and the receiver reads is a violation." + WS_FLAVOUR, ref="DESIGN.md §5 C12"),
 })
 
 CHECKS.update({
     "C09": dict(engine="nodesim", technique="deterministic simulation on one virtual clock (std Instant + tokio timers): seeded schedules and activity scripts timed around the keep-alive expiry; exact expected-close oracle",
-        text="Seeded search over schedules and activity scripts with two complete litep2p nodes (real TransportService/KeepAliveTracker, ConnectionHandle/Permit, TcpConnection, ProtocolSet, optional ping and identify) on a simulated network and a single virtual clock that drives both std::time::Instant and tokio timers. Only node 1 has the keep-alive timeout T under test, so the expected close instant is computed exactly from the recorded history: E = max over protocols of (last substream request/receipt or connection notification + T) and the release of the last keep-alive substream or pending open. Oracle: the connection closes no earlier than E - 3 ms, no later than E + 150 ms, never while a keep-alive substream or pending open is held; ping/identify traffic does not prolong it; one or two overlapping connections.", ref="DESIGN.md §5 C09"),
+        text="Seeded search over schedules and activity scripts with two complete litep2p nodes (real TransportService/KeepAliveTracker, ConnectionHandle/Permit, TcpConnection, ProtocolSet, optional ping and identify) on a simulated network and a single virtual clock that drives both std::time::Instant and tokio timers. Only node 1 has the keep-alive timeout T under test, so the expected close instant is computed exactly from the recorded history: E = max over protocols of (last substream request/receipt or connection notification + T) and the release of the last keep-alive substream or pending open. Oracle: the connection closes no earlier than E - 3 ms, no later than E + 150 ms, never while a keep-alive substream or pending open is held; ping/identify traffic does not prolong it; one or two overlapping connections." + WS_FLAVOUR + " A quarter of the runs use the built-in protocols mode: the connection is kept busy by the real notification protocol (an open stream, opened and closed by either side) and the real request-response protocol (the responder withholds its answer), timed around the expiry; there the instants of activity are bracketed between a command and the outcome seen by the user, and the oracle is two-sided with that bracket: not closed while a substream is certainly held, not closed before the last command that led to activity + timeout, closed by the last outcome seen + timeout + 400 ms.", ref="DESIGN.md §5 C09"),
 })
 
 CHECKS.update({
     "C16": dict(engine="nodesim", technique="deterministic simulation: seeded schedules + fault injection over 3-6 whole litep2p nodes running Kademlia, with ghost peers; query ledger oracle",
-        text="Seeded search over schedules, fault plans and user operations with 3-6 complete litep2p nodes running the real Kademlia protocol (event loop, QueryEngine, routing table, store, executor) over the real transport stack on a simulated network and clock, bootstrapped into a line, star or clique, plus ghost peers whose address refuses, black-holes, cannot be dialed by any enabled transport, or is missing. Oracle: ledger keyed by query id - exactly one terminal event per issued query by the horizon, of the kind matching the operation; partial results only before it and only for get_record; no unknown ids; PutRecordSuccess/AddProviderSuccess only if enough distinct nodes really received the record/provider (exact required count for put_record_to_peers, at least one for the closest-peers variants), asserted in runs without connection-killing faults.", ref="DESIGN.md §5 C16"),
+        text="Seeded search over schedules, fault plans and user operations with 3-6 complete litep2p nodes running the real Kademlia protocol (event loop, QueryEngine, routing table, store, executor) over the real transport stack on a simulated network and clock, bootstrapped into a line, star or clique, plus ghost peers whose address refuses, black-holes, cannot be dialed by any enabled transport, or is missing. Oracle: ledger keyed by query id - exactly one terminal event per issued query by the horizon, of the kind matching the operation; partial results only before it and only for get_record; no unknown ids; PutRecordSuccess/AddProviderSuccess only if enough distinct nodes really received the record/provider (exact required count for put_record_to_peers, at least one for the closest-peers variants), asserted in runs without connection-killing faults." + WS_FLAVOUR, ref="DESIGN.md §5 C16"),
 })
 
 CHECKS.update({
-    "C01": dict(engine="bytepipe", category="fault_enumeration", technique="deterministic simulation of the handshake with an active man in the middle and a rogue peer: systematic fault enumeration over every handshake byte + seeded schedules/fragmentation Fault kinds: connection reset / half-close at an instant or at a byte offset, single-bit corruption in flight, partition (stalled delivery) and heal, refused / black-holed / slow connects, node kill (reset or silent vanish), crash + restart with the same identity and no memory, process stall (no task of a node is polled for 50 ms-40 s); a second pass runs the same cases against litep2p compiled with debug assertions (its debug_assert!-guarded states become panics = violations). In a third of the runs one ghost is a live rogue peer that speaks the Kademlia protocol name and, after reading a request, stays silent, closes, or answers garbage / an empty frame / a well-formed message of the wrong type.",
-        text="The real noise::handshake runs on both ends of a simulated carrier under the seeded scheduler. Fault enumeration: every byte offset of both handshake directions x {bit flips, overwrite, truncation} is injected by a man in the middle; a rogue peer written directly against snow completes a valid Noise XX session with every forged identity payload of a catalogue (missing key/signature, signature by another identity, signature bound to another static key, missing domain prefix, wrong lengths, unknown key type, ...) in both roles; seeded runs add key pairs, fragmentation down to single bytes, short writes, Pending and schedules. Oracle: a secured connection for peer P is reported only if nothing was altered in flight and the payload is a valid proof for P over this session's static key; every altered or forged case ends in an error within the time-out, never a hang or panic. The dialed-peer comparison is exercised end-to-end by C05's wrong_peer address shape.", ref="DESIGN.md §5 C01"),
+    "C01": dict(engine="bytepipe", category="fault_enumeration", technique="deterministic simulation of the handshake with an active man in the middle and a rogue peer: systematic fault enumeration over every handshake byte + seeded schedules/fragmentation; whole-node impostor runs over TCP and WebSocket",
+        text="The real noise::handshake runs on both ends of a simulated carrier under the seeded scheduler. Fault enumeration: every byte offset of both handshake directions x {bit flips, overwrite, truncation} is injected by a man in the middle; a rogue peer written directly against snow completes a valid Noise XX session with every forged identity payload of a catalogue (missing key/signature, signature by another identity, signature bound to another static key, missing domain prefix, wrong lengths, unknown key type, ...) in both roles; seeded runs add key pairs, fragmentation down to single bytes, short writes, Pending and schedules. Oracle: a secured connection for peer P is reported only if nothing was altered in flight and the payload is a valid proof for P over this session's static key; every altered or forged case ends in an error within the time-out, never a hang or panic. The dialed-peer comparison is exercised end-to-end by C05's wrong_peer address shape." + " A third of the impostor runs use the WebSocket transport (its own connection negotiation and dialed-peer comparison).", ref="DESIGN.md §5 C01"),
     "C02": dict(engine="bytepipe", technique="deterministic simulation: real Noise sockets over a simulated carrier with seeded fragmentation/back-pressure and a frame-level attacker; byte-FIFO reference model",
         text="Two endpoints perform the real Noise handshake over a simulated carrier and then exchange byte streams in both directions through the real NoiseSocket (split into reader and writer tasks under the seeded scheduler). Write sizes cover 1 byte to several maximum frames incl. 65519/65520/65521, reader buffers 1 byte to 400 kB, read-ahead 1-5 and write-buffer 1-3, carrier chunking down to one byte, short writes, Pending and a bounded window. Reference model: a byte FIFO (position-indexed pseudo-random stream). Honest runs: bytes read = bytes written, no error, no stall. Attacker runs (one ciphertext frame flipped, truncated, replayed, dropped or swapped): no byte that differs from the honest stream is ever delivered and nothing from the attacked frame on is delivered.", ref="DESIGN.md §5 C02"),
 })
@@ -69,7 +72,7 @@ CHECKS.update({
 
 CHECKS.update({
     "C10": dict(engine="nodesim", technique="deterministic simulation: operation histories against a whole litep2p node on a simulated network; snapshot-transition oracle over the address book read through a guarded accessor",
-        text="A complete litep2p node executes seeded histories of add_known_address (generated address shapes incl. missing / foreign / duplicate peer ids, unspecified and own addresses, unsupported stacks, up to 200 distinct addresses against the bound of 64, rediscovery of scored addresses) and dial(peer) whose connection attempts are resolved by the simulated network (refused, black-holed, connected to real peer nodes). After every step the stored addresses with scores are read through the guarded accessor (hook H4) and compared with the previous snapshot: only offered, well-formed, correctly attributed, non-local, dialable addresses appear; never more than 64; a displaced address had a minimal score and not a higher one than the newcomer; adding never changes the score of a stored address; a dial re-scores exactly the addresses it used (100 / -100) and nothing else; the order of SimNet connection attempts (max_parallel_dials=1) is non-increasing in score, without duplicates, limited by the outbound capacity, never skipping a better address; NoAddressAvailable iff nothing is stored.", ref="DESIGN.md §5 C10"),
+        text="A complete litep2p node executes seeded histories of add_known_address (generated address shapes incl. missing / foreign / duplicate peer ids, unspecified and own addresses, unsupported stacks, up to 200 distinct addresses against the bound of 64, rediscovery of scored addresses) and dial(peer) whose connection attempts are resolved by the simulated network (refused, black-holed, connected to real peer nodes). After every step the stored addresses with scores are read through the guarded accessor (hook H4) and compared with the previous snapshot: only offered, well-formed, correctly attributed, non-local, dialable addresses appear; never more than 64; a displaced address had a minimal score and not a higher one than the newcomer; adding never changes the score of a stored address; a dial re-scores exactly the addresses it used (100 / -100) and nothing else; the order of SimNet connection attempts (max_parallel_dials=1) is non-increasing in score, without duplicates, limited by the outbound capacity, never skipping a better address; NoAddressAvailable iff nothing is stored." + " In a third of the runs the node and the real peers also run the WebSocket transport: /ws addresses become storable and dialable, a dial by peer id hands each transport its share of the score order; order and skipped-address rules are then judged per transport (and across transports when the dial failed as a whole before the overall dial deadline).", ref="DESIGN.md §5 C10"),
 })
 
 CHECKS.update({
